@@ -71,7 +71,10 @@ def plain_tree(mapping):
             if k == "Reservation":
                 continue
             if k in ("Storage", "Toll"):
-                out.append({"t": "S", "tensors": [str(x) for x in n.tensors], "comp": str(n.component)})
+                node = {"t": "S", "tensors": [str(x) for x in n.tensors], "comp": str(n.component)}
+                if k == "Toll":
+                    node["toll"] = True
+                out.append(node)
             elif k == "Temporal":
                 out.append({"t": "T", "rv": str(n.rank_variable), "tile": _num(n.tile_shape)})
             elif k == "Spatial":
@@ -102,7 +105,7 @@ def tree_yaml(tree):
         out = []
         for n in nodes:
             if n["t"] == "S":
-                out.append({"!tag": "Storage", "tensors": list(n["tensors"]), "component": n["comp"]})
+                out.append({"!tag": "Toll" if n.get("toll") else "Storage", "tensors": list(n["tensors"]), "component": n["comp"]})
             elif n["t"] == "T":
                 out.append({"!tag": "Temporal", "rank_variable": n["rv"], "tile_shape": n["tile"]})
             elif n["t"] == "P":
